@@ -22,9 +22,12 @@ RULE = ('Hypothesis RuleBasedStateMachine over one long-lived interpreter '
         '(converter modules freshly imported at the start of each machine): '
         'a pool of 3-5 generated decks (Boolean level-0 decks, universe '
         'trees, rectangular and hexagonal lattices, duplicate / unused / '
-        'flagged surfaces) and 4 option sets; rules: convert(deck, options) '
+        'flagged surfaces, multi-particle importance decks, material decks, '
+        'LIKE decks) and 4 option sets; rules: convert(deck, options) '
         'in-process, convert_failing(fault-injected deck) which must raise, '
-        'reconvert(an earlier pair), fresh_hashseed(deck, options, seed in '
+        'reconvert(an earlier pair), every_ordered_pair(options) which '
+        'converts b right after a for all ordered pairs of pool decks, '
+        'fresh_hashseed(deck, options, seed in '
         '{1, 2, random}). Invariants after every step: the bytes written '
         '(command-line echo stripped) equal the memoised output of a fresh '
         'process with PYTHONHASHSEED=0 for the same (deck, options); fresh '
@@ -185,13 +188,32 @@ def first_diff(a, b):
 
 
 @st.composite
-def pool_deck(draw, tier, homogeneous=False):
-    if homogeneous or draw(st.integers(0, 2)) == 0:
-        from .. import gen_hier
+def pool_deck(draw, tier, homogeneous=False, special=False):
+    from .. import gen_hier
+    if special:
+        which = draw(st.sampled_from(['imp', 'imp', 'mat', 'like']))
+    else:
+        which = 'lat' if homogeneous else draw(st.sampled_from(
+            ['lat', 'lat', 'lat', 'any', 'any', 'any', 'any', 'imp', 'imp',
+             'mat', 'like']))
+    if which == 'lat':
         case = draw(gen_hier.hier_case(tier, {'lattice': 'force',
                                               'max_depth': 2,
                                               'homogeneous': True}))
         case = draw(gen_hier.decorate(case, bc=True))
+    elif which == 'imp':
+        # importances by cell keyword for several particle types, by data
+        # cards or mixed; zero-importance cells at any rank
+        from . import c12
+        case = draw(c12.strategy(tier))
+        case['labels'] = list(case['labels']) + ['pool:importances']
+    elif which == 'mat':
+        from . import c10
+        mcase = draw(c10.mat_case(tier))
+        case = {'deck': c10.build_deck(mcase), 'labels': ['pool:materials']}
+    elif which == 'like':
+        case = draw(gen_hier.like_case(tier))
+        case['labels'] = list(case['labels']) + ['pool:like']
     else:
         case = draw(c08.any_deck(tier))
     deck = case['deck']
@@ -259,12 +281,14 @@ def make_machine(tier, sink):
             super().__init__()
             self.world = None
             self.pairs = []
+            self.swept = False
 
         @initialize(first=pool_deck(tier, homogeneous=True),
-                    rest=st.lists(pool_deck(tier), min_size=2, max_size=4))
-        def setup(self, first, rest):
+                    second=pool_deck(tier, special=True),
+                    rest=st.lists(pool_deck(tier), min_size=1, max_size=3))
+        def setup(self, first, second, rest):
             decks = []
-            for dck in [first] + rest:
+            for dck in [first, second] + rest:
                 decks.append({k_: v_ for k_, v_ in dck.items()
                               if k_ != 'sibling_text'})
                 if dck.get('sibling_text'):
@@ -286,6 +310,22 @@ def make_machine(tier, sink):
                 # the faulty sibling of a deck that was converted before
                 i = self.pairs[i % len(self.pairs)][0]
             self.world.do_failing(i % len(self.world.decks))
+
+        @precondition(lambda self: not self.swept)
+        @rule(oi=st.integers(0, len(OPTION_SETS) - 1))
+        def every_ordered_pair(self, oi):
+            # a after b for every ordered pair of pool decks: whatever one
+            # conversion leaves behind meets every other deck once
+            self.swept = True
+            n = len(self.world.decks)
+            for a in range(n):
+                for b in range(n):
+                    if a != b:
+                        self.world.do_convert(a, oi, 'convert')
+                        self.world.do_convert(b, oi, 'convert')
+                        if self.world.problem is not None:
+                            return
+            self.pairs.append((0, oi))
 
         @precondition(lambda self: len(self.pairs) > 0)
         @rule(k=st.integers(0, 50))
@@ -334,6 +374,12 @@ def summarise(world):
             'distinct_decks': len(decks), 'repeat_after_other': repeats,
             'fresh_processes': world.n_fresh,
             'problem': world.problem,
+            'labels': sorted(set(l for d in world.decks
+                                 for l in d.get('labels', ())
+                                 if l.startswith('pool:') or l.startswith('gen:')
+                                 or l.startswith('mode:')
+                                 or l.startswith('particles:')
+                                 or l in ('sibling', 'lattice', 'hex-lattice'))),
             'decks': [{k: v for k, v in d.items() if k != 'labels'}
                       for d in world.decks]}
 
@@ -429,7 +475,7 @@ def _shard(args):
 def extra(tier, seed, stats):
     import multiprocessing
     if tier == 'quick':
-        shards, n_machines, n_steps = 8, 4, 10
+        shards, n_machines, n_steps = 16, 4, 10
     else:
         shards, n_machines, n_steps = 16, 40, 20
     ctx = multiprocessing.get_context('fork')
@@ -443,6 +489,7 @@ def extra(tier, seed, stats):
             stats.counts['extra_evaluations'] += 1
             stats.counts['steps'] += w['n_steps']
             stats.counts['fresh_processes'] += w['fresh_processes']
+            stats.labels.update(w.get('labels', ()))
             nontrivial = (w['n_steps'] >= 3 and w['distinct_decks'] >= 2
                           and w['repeat_after_other'])
             sig = hashlib.sha1(repr(w['steps']).encode()
